@@ -1127,6 +1127,9 @@ func z3TagsC08(c *c08Case, cr *CaseResult) []string {
 	out, _ := oc["outcome"].(map[string]any)
 	_ = out
 	toTs := c.pair != pairTsGo
+	if strings.Contains(c.svc.BasePath, "{") {
+		tags = append(tags, "base-path-variable-unbound")
+	}
 	if !toTs && (c.md.Verb == "GET" || c.md.Verb == "DELETE") {
 		if in, _ := c.req.FindMessage(c.md.In); in != nil {
 			for _, f := range in.Fields {
